@@ -219,11 +219,12 @@ class Prop(PropBase):
         if not code["supplied_same"]:
             return "a supplied chirp gives a different result from the internal one"
         # band-limited fractional delays have 1/n sidelobes that the edge crops cut off, so exact restoration is
-        # only approached when the smearing is small against the record: checked for |delay| <= N/8, N >= 64 at 5%
+        # only approached when the smearing is small against the record: checked for |delay| <= N/8, N >= 64 at 15%
+        # (5% was too tight: N=64, 3 channels, 1-sample delay reaches 5.5% from truncated sidelobes alone)
         # (a wrong sign/conjugate leaves an O(1) error)
         if "roundtrip_err" in code and code.get("roundtrip_support") and N >= 64 \
                 and max(abs(dtop), abs(dbot)) <= F(N, 8):
-            if not (0 <= code["roundtrip_err"] <= 0.05):
+            if not (0 <= code["roundtrip_err"] <= 0.15):
                 return f"DM then -DM does not restore a compactly supported input (error {code['roundtrip_err']:.3g})"
         return None
 
